@@ -48,8 +48,21 @@ BR(p) == BoolV(Cyc(<<TRUE, TRUE, FALSE, FALSE, TRUE>>, p))
 SL(p) == StrV(Cyc(<<"a", "b", "c", "d", "e">>, p))
 SR(p) == StrV(Cyc(<<"a", "c", "c", "e", "d", "b">>, p))
 
-LVal(op, cn, p) == IF cn = "bool" THEN BL(p) ELSE IF cn = "str" THEN SL(p) ELSE LV(op, cn, p)
-RVal(op, cn, p) == IF cn = "bool" THEN BR(p) ELSE IF cn = "str" THEN SR(p) ELSE RV(op, cn, p)
+(* SPECIAL operands: the identity and the absorbing element of every operator (0 and 1: x + 0, 0 * x, 1 * x, x / 1, 0 / x,    *)
+(* 0 ^ x, 1 ^ x, x ^ 0, x ^ 1, 0 % x, x % 1) take every second and fifth position of an operand, and - through the fillings -    *)
+(* also the position of the broadcast scalar.  Kernels that short-cut "trivial" operands are wrong exactly there (0 ^ 0 = 1).    *)
+Special(op, left, which) ==
+  CASE op = "/" /\ ~left -> IntV(1)                       \* never a zero divisor
+    [] op = "%" /\ ~left -> IntV(1)
+    [] op = "%" /\ left -> IntV(0)
+    [] OTHER -> IntV(which)                               \* which = 0 at positions 2 mod 6, 1 at positions 5 mod 6
+HasSpecial(op) == op \in {"+", "*", "/", "%", "^"}
+LVs(op, cn, p) == IF HasSpecial(op) /\ p % 6 = 2 THEN Special(op, TRUE, 0)
+                  ELSE IF HasSpecial(op) /\ p % 6 = 5 THEN Special(op, TRUE, 1) ELSE LV(op, cn, p)
+RVs(op, cn, p) == IF HasSpecial(op) /\ p % 6 = 3 THEN Special(op, FALSE, 0)
+                  ELSE IF HasSpecial(op) /\ p % 6 = 5 THEN Special(op, FALSE, 1) ELSE RV(op, cn, p)
+LVal(op, cn, p) == IF cn = "bool" THEN BL(p) ELSE IF cn = "str" THEN SL(p) ELSE LVs(op, cn, p)
+RVal(op, cn, p) == IF cn = "bool" THEN BR(p) ELSE IF cn = "str" THEN SR(p) ELSE RVs(op, cn, p)
 
 Operand(sh, V(_), fill) ==
   IF sh[1] = 1 THEN Scalar(V(1 + fill))
@@ -69,7 +82,8 @@ MustAccept(op, cn) ==
   \/ op = "neg" /\ cn \in {"i8", "iw", "flt", "rat"}
 
 Dummy == [stage |-> 0, un |-> FALSE, op |-> "+", cn |-> "flt", ls |-> <<1,1,1>>, rs |-> <<1,1,1>>, fill |-> 0]
-Fills(ls, rs) == IF ls[1] = 1 /\ rs[1] = 1 THEN {0, 1, 2} ELSE MatFills
+Fills(ls, rs) == IF ls[1] = 1 /\ rs[1] = 1 THEN {0, 1, 2, 4} ELSE IF ls[1] = 1 \/ rs[1] = 1 THEN MatFills \cup {1, 4} ELSE MatFills
+\* with a broadcast scalar the fillings 1 and 4 put the special operands (positions 2 and 5) into the scalar's place
 Partials ==
        {[stage |-> 1, un |-> FALSE, op |-> oc[1], cn |-> oc[2], ls |-> l, rs |-> <<1,1,1>>, fill |-> 0] : oc \in OpCls, l \in ShapeSet}
   \cup {[stage |-> 1, un |-> TRUE, op |-> oc[1], cn |-> oc[2], ls |-> l, rs |-> <<1,1,1>>, fill |-> 0] : oc \in UnOpCls, l \in ShapeSet}
